@@ -70,3 +70,17 @@ def alnum_value(raw, native):
         if val != iso.ALNUM.index(chr(c)):
             return True, 'alphanumeric value of %r is %d, ISO value is %d' % (chr(c), val, iso.ALNUM.index(chr(c))), replay
     return False, 'kani counterexample byte 0x%02x not reproduced natively' % c, replay
+
+
+def gf_kernel(values, native):
+    """values: a (u8), e (u8 < 255): division(&[a], &[0, e]) must leave a * alpha^e in the last cell"""
+    a, e = values[0] & 0xFF, values[1] & 0xFF
+    req = 'division_raw %02x %s' % (a, bytes([0, e]).hex())
+    ans = native.ask(req)
+    if ans.startswith('PANIC') or ans == 'ABORT':
+        return True, 'division panics on a one-byte block: %s' % ans[:80], {'request': req}
+    out = bytes.fromhex(ans)
+    want = iso.gf_mul(a, iso.gf_pow2(e))
+    if out[254] != want or out[253] != 0:
+        return True, 'GF(256) multiply step: %d * alpha^%d gives %d, expected %d' % (a, e, out[254], want), {'request': req}
+    return False, 'kani counterexample (a=%d, e=%d) not reproduced' % (a, e), {'request': req}
